@@ -6,9 +6,11 @@ for d0 in "$@"; do d=$(realpath "$d0")
   id=$(python3 -c "import json,sys; print(json.load(open('$d/meta.json'))['property'])")
   if ! git -C /repo apply --check "$d/patch.diff" 2>/dev/null; then echo "$d patch-does-not-apply"; continue; fi
   git -C /repo apply "$d/patch.diff"
+  cp -f /verif/evidence/$id.json /tmp/seedtest_evidence_$id.json 2>/dev/null   # the evidence of a run on a changed tree is not kept
   PYTHONPATH=/repo timeout 300 /venv/bin/python "$d/demo.py" < /dev/null > /tmp/seed_demo.out 2>&1; rc1=$?
   out=$(AHP_SKIP_COQCHK=1 timeout 1500 ./vcheck $id --tier ${TIER:-quick} 2>&1 | grep -E "^(VIOLATION|OK|KNOWN)" | head -3 | tr '\n' ' ')
   git -C /repo checkout -- .
+  [ -f /tmp/seedtest_evidence_$id.json ] && mv -f /tmp/seedtest_evidence_$id.json /verif/evidence/$id.json
   PYTHONPATH=/repo timeout 300 /venv/bin/python "$d/demo.py" < /dev/null > /dev/null 2>&1; rc0=$?
   if echo "$out" | grep -q VIOLATION; then res=CAUGHT; else res=MISSED; fi
   kinds=$(python3 - "$id" <<'PY'
